@@ -1,5 +1,6 @@
 import Sismic.Proofs.C03
 import Sismic.Spec.Legal
+import Sismic.Proofs.Legal
 /-!
 # Property C02 — the active configuration is always a legal, stable statechart configuration
 
@@ -8,10 +9,21 @@ Proved here: **stability** (after every call that returns a macro step nothing r
 entered by default; a call that returns `None` leaves the configuration alone) and **final stays
 final** (an initialised interpreter with an empty configuration keeps it, whatever events arrive).
 
-Legality as an inductive invariant of `execute_once` (`Legal cfg → Legal cfg'` for well-formed
-charts) is *not yet* a theorem — see `legal_preserved_partial` for the part that is; the tie checks
-`legalB` after every step of every generated run on both sides (`./check C02`), which is how the
-defect D1 (orthogonal state entered through one region only) was found and is now kept fixed.
+**Legality as an inductive invariant** (`legal_preserved_partial`): for every well-formed chart
+(`WFChart`, DESIGN.md §2 W1–W8) and every call of `execute_once` that returns and plans at most
+one step (initialisation, an event consumed without transition, or *one* transition — wherever
+its source and target lie, including targets nested inside orthogonal regions, history states,
+ancestors, self-loops, the root), the invariant `LInv` (configuration empty or `Legal`, history
+memory re-enterable) is preserved; it holds initially (`legal_initially`).  Proof: every micro
+step keeps the configuration *semi-legal* (`Semi`: legal up to pending default entry —
+`createStep_semi`, `stabilizationStep_semi`, with the memory invariant `MemOK` for history
+restoration and `semi_final_only` for final states), and a semi-legal configuration on which no
+stabilisation step is pending is legal (`semi_stable_legal`).
+*Partial*: macro steps that fire several transitions at once (one per orthogonal region) are not
+covered: their later steps are computed from the configuration *before* the first one, and the
+frame argument (non-conflicting transitions touch disjoint subtrees) is not formalised.  The tie
+checks `legalB` after every step of every generated run on both sides (`./check C02`), which is
+how the defect D1 (orthogonal state entered through one region only) was found.
 -/
 namespace Sismic.C02
 open M
@@ -132,5 +144,80 @@ theorem legalB_sound (c : Chart) (cfg : List Name) (hn : cfg.Nodup) (h : legalB 
       have hk' : sd.kind = k := by simpa using hk
       subst hk'
       cases hkk : sd.kind <;> simp_all [Kind.isHistory]
+
+/-- what is carried from one call of `execute_once` to the next -/
+structure LInv (c : Chart) (st : IState σ) : Prop where
+  notStarted : st.initialized = false → st.config = []
+  legal : st.config = [] ∨ Legal c st.config
+  memory : MemOK c st.memory
+
+/-- a fresh interpreter satisfies the invariant -/
+theorem legal_initially (c : Chart) (st : IState σ) (hi : st.initialized = false) (hc : st.config = [])
+    (hm : st.memory = []) : LInv c st :=
+  ⟨fun _ => hc, Or.inl hc, by rw [hm]; intro hs k l hf; simp at hf⟩
+
+/-- **Legality is preserved** by every call that returns and plans at most one step. -/
+theorem legal_preserved_partial (hwf : WFChart env.chart) (clock : Int) (rs rs' : RS σ ω) (r : Option MacroStep)
+    (h : executeOnce env clock rs = (.ok r, rs')) (hinv : LInv env.chart rs.st)
+    (hsingle : ∀ (st1 : IState σ) computed, st1.config = rs.st.config →
+      planOf env.chart env.E st1 = .ok computed → computed.length ≤ 1) :
+    LInv env.chart rs'.st := by
+  obtain ⟨st1, computed, _, hc1, hm1, _, hinit, hplan, hi', _, hnil, hcons⟩ := executeOnce_ok env clock rs rs' _ h
+  have hS0 : SInv env.chart (rs.st.config, rs.st.memory) :=
+    ⟨hinv.legal.imp id (legal_semi env.chart hwf), hinv.memory⟩
+  cases computed with
+  | nil =>
+    obtain ⟨_, hc, hm, _⟩ := hnil rfl
+    refine ⟨?_, ?_, ?_⟩
+    · intro hf; rw [hi'] at hf; cases hf
+    · rw [hc]; exact hinv.legal
+    · rw [hm]; exact hinv.memory
+  | cons p tail =>
+    obtain ⟨steps, _, hchain, hcm, _⟩ := hcons p tail rfl
+    -- the planned step keeps the invariant
+    have htail : tail = [] ∧ SInv env.chart (applyMicro env.chart (rs.st.config, rs.st.memory) p) := by
+      cases hin : rs.st.initialized with
+      | false =>
+        have := hinit hin
+        simp only [List.cons.injEq] at this
+        obtain ⟨hp, ht⟩ := this
+        refine ⟨ht, ?_⟩
+        have hcfg := hinv.notStarted hin
+        obtain ⟨r0, hr0, _, _⟩ := hwf.root
+        have e : applyMicro env.chart (rs.st.config, rs.st.memory) p = ([r0], rs.st.memory) := by
+          rw [hp, hcfg, hr0]; rfl
+        rw [e]
+        exact ⟨Or.inr (semi_root env.chart hwf r0 hr0), hinv.memory⟩
+      | true =>
+        have hp := hplan hin
+        have hlen := hsingle st1 (p :: tail) hc1 hp
+        have ht : tail = [] := by
+          cases tail with
+          | nil => rfl
+          | cons _ _ => simp at hlen
+        refine ⟨ht, ?_⟩
+        rw [ht] at hp
+        have := planned_inv env.chart hwf env.E st1 p hp (by rw [hc1, hm1]; exact hS0)
+        rw [hc1, hm1] at this
+        exact this
+    obtain ⟨ht, hSp⟩ := htail
+    subst ht
+    obtain ⟨a, stab, rest, rfl, hshape, hstab, hrest⟩ := hchain
+    have hrest' : rest = [] := hrest
+    subst hrest'
+    have e1 : applyMicros env.chart (rs.st.config, rs.st.memory) (a :: stab ++ []) =
+        applyMicros env.chart (applyMicro env.chart (rs.st.config, rs.st.memory) p) stab := by
+      simp only [applyMicros, List.append_nil, List.foldl_cons]
+      rw [applyMicro_shape _ _ a p hshape]
+    have hfin := stabChain_inv env.chart hwf stab _ hSp hstab
+    rw [← e1, ← hcm] at hfin
+    have hstable := runChain_stable env.chart [p] (a :: stab ++ []) _ (by simp)
+      ⟨a, stab, [], rfl, hshape, hstab, rfl⟩
+    rw [← hcm] at hstable
+    refine ⟨?_, ?_, hfin.2⟩
+    · intro hf; rw [hi'] at hf; cases hf
+    rcases hfin.1 with he | hS
+    · exact Or.inl he
+    · exact Or.inr (semi_stable_legal env.chart hwf hS hstable)
 
 end Sismic.C02
